@@ -4,6 +4,7 @@ go 1.23.0
 
 require (
 	github.com/invopop/gobl v0.0.0
+	github.com/invopop/jsonschema v0.12.0
 	github.com/invopop/yaml v0.3.1
 )
 
@@ -15,7 +16,6 @@ require (
 	github.com/buger/jsonparser v1.1.1 // indirect
 	github.com/go-jose/go-jose/v4 v4.0.5 // indirect
 	github.com/google/uuid v1.6.0 // indirect
-	github.com/invopop/jsonschema v0.12.0 // indirect
 	github.com/invopop/validation v0.7.0 // indirect
 	github.com/mailru/easyjson v0.7.7 // indirect
 	github.com/wk8/go-ordered-map/v2 v2.1.8 // indirect
